@@ -101,6 +101,23 @@ func (C13) Gen(r *core.Rng, tier string, emit func(string)) {
 		}
 		emit(fmt.Sprintf("cluster %d %s %d %d %s %s", r.Intn(2), compName(ic), tt, tc, hexs(ts.data), ba.dirsLine()))
 	}
+	// runs that together address 2^32 tiles and more (legal from zoom 16 on): the addressed-tiles count is a
+	// 64-bit quantity, a run length a 32-bit one
+	for _, rls := range [][]uint32{{3000000000, 3000000000}, {4294967295, 1}, {4294967295, 4294967295, 7}} {
+		var ts tileSet
+		id := uint64(1)<<33 + uint64(r.Intn(1000))
+		for k, rl := range rls {
+			c := r.Bytes(2 + r.Intn(4))
+			ts.entries = append(ts.entries, pmtiles.EntryV3{TileID: id, Offset: uint64(len(ts.data)), Length: uint32(len(c)), RunLength: rl})
+			ts.data = append(ts.data, c...)
+			id += uint64(rl) + uint64(k)
+		}
+		root := buildTree(r, ts.entries, 0, 4, false)
+		ba := assembleArchive(root, ts, pmtiles.Gzip, baseHeader(), clusterMeta)
+		for dedup := 0; dedup < 2; dedup++ {
+			emit(fmt.Sprintf("cluster %d gzip 1 2 %s %s", dedup, hexs(ts.data), ba.dirsLine()))
+		}
+	}
 }
 
 var bigMetaOnce sync.Once
